@@ -28,6 +28,10 @@ type Obligation struct {
 	Time   float64
 	Model  string
 	Output string
+	// for replay of refuted postconditions
+	Con        *Contract
+	Cl         *Clause
+	ParamTerms map[string]Term // synthetic parameter / result name -> SMT term of its (scalar) value
 }
 
 type localAlloc struct {
@@ -271,6 +275,13 @@ func (x *Enc) encodeTop() {
 					label = fmt.Sprintf("ens%d", ci)
 				}
 				x.addObl("ensures", fmt.Sprintf("%s.%s@ret%d", shortFn(fn), label, ri), c.Text, r.pos, r.reach, goal)
+				last := x.obls[len(x.obls)-1]
+				last.Con, last.Cl, last.ParamTerms = x.con, c, map[string]Term{}
+				for n, v := range fr.paramVals(info.params, r.vals) {
+					if len(v.ts) == 1 && v.fp == nil {
+						last.ParamTerms[n] = v.ts[0]
+					}
+				}
 			}
 			if !x.con.NoFrame {
 				x.frameObligations(fr, r, ri, h0)
